@@ -267,10 +267,10 @@ fn c16_io_bound() {
         let bound = 2 * (cfg.levels as usize + 2);
         let src = SchedSource::new(bytes.clone(), 1, usize::MAX, false);
         let r = Reader::new(src).unwrap();
-        // opening reads only the trailer: at most the trailer bytes (22, plus the 4 magic bytes if they are read twice), and no
-        // positioning anywhere but inside the trailer region (how the trailer is reached -- from the end or by absolute offset -- is free)
-        { let s = r.get_ref(); let outside: Vec<u64> = s.abs_seeks.iter().copied().filter(|&o| (o as usize) + 26 < bytes.len()).collect();
-          if !outside.is_empty() || s.bytes_read > 22 + 4 { cex(format!("C16 opening read {} bytes and positioned the source outside the trailer at offsets {:?} (file of {} bytes, trailer is 22 bytes) cfg={:?}", s.bytes_read, outside, bytes.len(), cfg)); } }
+        // opening reads only the trailer: at most the trailer bytes (22, plus the 4 magic bytes if they are read twice), every one of
+        // them from the trailer region. Positioning the source transfers no data and is free (from the end, absolute, back to 0, ...)
+        { let s = r.get_ref(); let outside: Vec<u64> = s.reads_at.iter().copied().filter(|&o| (o as usize) + 26 < bytes.len()).collect();
+          if !outside.is_empty() || s.bytes_read > 22 + 4 { cex(format!("C16 opening read {} bytes, some outside the trailer at offsets {:?} (file of {} bytes, trailer is 22 bytes) cfg={:?}", s.bytes_read, outside, bytes.len(), cfg)); } }
         let mut c = r.into_cursor().unwrap();
         let nops = if tier_thorough() { 4000 } else { 900 };
         for i in 0..nops {
